@@ -179,28 +179,28 @@ Q_LENS = [1, 2, 3, 5, 8, 9, 17]
 J('B.mem_prim_move.q', PRIM_PROPS, 'B', 'harness/memprim.c', sources=[PRIM], defines=['FN=4'], replay=True,
   variants=move_variants([0, 1, 3], [1, 8, 64, -1, -8], Q_LENS), functions=['mem_prim_move'], no_std_checks=False, quick_props=['C01', 'C06', 'C07'],
   bound='enumerated: dest alignment {0,1,3}, src-dest in {1,8,64,-1,-8}, len in %s; contents symbolic' % Q_LENS,
-  timeout=600, tiers=('quick',))
-J('B.mem_prim_move.full', PRIM_PROPS, 'B', 'harness/memprim.c', sources=[PRIM], defines=['FN=4'], replay=True,
+  timeout=600)
+J('B.mem_prim_move.full', ['C07', 'C06'], 'B', 'harness/memprim.c', sources=[PRIM], defines=['FN=4'], replay=True,
   variants=move_variants(range(8), [1, 2, 3, 7, 8, 9, 16, 64, -1, -2, -3, -7, -8, -9, -16, -64], range(1, 27)),
   functions=['mem_prim_move'], bound='enumerated: every dest alignment 0..7, src-dest in +-{1,2,3,7,8,9,16,64}, len 1..26; contents symbolic',
   timeout=900, tiers=('thorough',))
 J('B.mem_prim_set.q', PRIM_PROPS, 'B', 'harness/memprim.c', sources=[PRIM], defines=['FN=1'], replay=True,
   variants=set_variants([0, 1, 3, 7], [0, 1, 2, 7, 8, 9, 16, 17, 31, 64, 65, 130, 137, 264]), object_bits=10, functions=['mem_prim_set'], quick_props=['C06', 'C18'],
   bound='enumerated: dest alignment {0,1,3,7}, len in {0,1,2,7,8,9,16,17,31,64,65,130,137,264}; fill value and contents symbolic',
-  timeout=600, tiers=('quick',))
-J('B.mem_prim_set.full', PRIM_PROPS, 'B', 'harness/memprim.c', sources=[PRIM], defines=['FN=1'], replay=True,
+  timeout=600)
+J('B.mem_prim_set.full', ['C18', 'C06'], 'B', 'harness/memprim.c', sources=[PRIM], defines=['FN=1'], replay=True,
   variants=set_variants(range(8), list(range(0, 41)) + list(range(120, 140)) + list(range(248, 268)) + [300, 391]), object_bits=10,
   functions=['mem_prim_set'], bound='enumerated: every dest alignment 0..7, len 0..40, 120..139, 248..267, 300, 391',
   timeout=900, tiers=('thorough',))
 for fn, nm in ((2, 'mem_prim_set16'), (3, 'mem_prim_set32')):
-    for sfx, lmax, tiers, qp in (('.q', 18, ('quick',), ['C06', 'C18']), ('', 40, ('thorough',), None)):
-        J('B.%s%s' % (nm, sfx), PRIM_PROPS, 'B', 'harness/memprim.c', sources=[PRIM], defines=['FN=%d' % fn, 'LMAX=%d' % lmax],
+    for sfx, lmax, tiers, qp in (('.q', 18, ('quick', 'thorough'), ['C06', 'C18']), ('', 40, ('thorough',), None)):
+        J('B.%s%s' % (nm, sfx), (PRIM_PROPS if sfx else ['C18', 'C06']), 'B', 'harness/memprim.c', sources=[PRIM], defines=['FN=%d' % fn, 'LMAX=%d' % lmax],
           unwind=8 + 8 + (lmax + 2) * 4 + 8 + 4, cbmc_flags=['--max-field-sensitivity-array-size', '4000'], replay=True, object_bits=10,
           functions=[nm], bound='enumerated: every element alignment, len 0..%d elements' % lmax, timeout=900, tiers=tiers, quick_props=qp)
 for fn, nm in ((5, 'mem_prim_move8'), (6, 'mem_prim_move16'), (7, 'mem_prim_move32')):
-    for sfx, lmax, offs, tiers, qp in (('.q', 18, (1, 3, 17, -1, -3, -17), ('quick',), ['C06', 'C07']),
+    for sfx, lmax, offs, tiers, qp in (('.q', 18, (1, 3, 17, -1, -3, -17), ('quick', 'thorough'), ['C06', 'C07']),
                                        ('', 36, (1, 3, 17, 64, -1, -3, -17, -64), ('thorough',), None)):
-        J('B.%s%s' % (nm, sfx), PRIM_PROPS, 'B', 'harness/memprim.c', sources=[PRIM], defines=['FN=%d' % fn, 'LMAX=%d' % lmax],
+        J('B.%s%s' % (nm, sfx), (PRIM_PROPS if sfx else ['C07', 'C06']), 'B', 'harness/memprim.c', sources=[PRIM], defines=['FN=%d' % fn, 'LMAX=%d' % lmax],
           replay=True, functions=[nm], timeout=900, tiers=tiers, quick_props=qp,
           variants=[{'label': 'off%+d' % off, 'defines': ['OFF=%d' % off],
                      'unwind': 8 + 8 + (lmax + abs(off) + 2) * 4 + 8 + 4} for off in offs],
